@@ -18,6 +18,7 @@ type c08Case struct {
 	Graph    gen.GraphCase `json:"graph"`
 	Refused  []string      `json:"refused"`
 	Continue bool          `json:"continue_on_error"`
+	Repeat   int           `json:"repeat,omitempty"` // run the oracle up to this many times (outcomes that depend on map iteration order)
 }
 
 func (c c08Case) graph() *model.Graph {
@@ -31,7 +32,7 @@ func (c c08Case) graph() *model.Graph {
 // continueWalk compares input and output of a continue-on-error expansion below
 // one element: dangling schema $refs must be in place verbatim, everything
 // reached through healthy $refs must carry the same content.
-func continueWalk(f *vstat.Failure, gin, gout *model.Graph, el model.Elem) {
+func continueWalk(f *vstat.Failure, gin, gout *model.Graph, root string, el model.Elem) {
 	var walk func(pin, pout model.Pos, k model.Kind, stack map[model.Pos]bool, depth int)
 	walk = func(pin, pout model.Pos, k model.Kind, stack map[model.Pos]bool, depth int) {
 		if depth > 80 || len(f.Atoms) > 0 {
@@ -54,7 +55,11 @@ func continueWalk(f *vstat.Failure, gin, gout *model.Graph, el model.Elem) {
 				}
 				ro, ok := model.RefOf(nout)
 				if !ok {
-					f.Add("DANGLING-REF-NOT-KEPT", pout.Ptr, "unresolvable schema $ref %q (input %s) is not left in place at %s: output holds %s", r, pin, pout.Ptr, model.JS(nout))
+					known := ""
+					if tp.Doc == root && throughHolder(gin, tp) {
+						known = "K6"
+					}
+					f.AddKnown(known, "DANGLING-REF-NOT-KEPT", pout.Ptr, "unresolvable schema $ref %q (input %s) is not left in place at %s: output holds %s", r, pin, pout.Ptr, model.JS(nout))
 					return
 				}
 				cr, err := spec.NewRef(r)
@@ -135,7 +140,52 @@ type c08Info struct {
 	healthy  int
 }
 
-func oracleC08(c c08Case) (*vstat.Failure, c08Info) {
+func oracleC08(c c08Case) (f *vstat.Failure, info c08Info) {
+	for i := 0; i < 1 || i < c.Repeat; i++ {
+		f, info = oracleC08once(c)
+		if !f.Empty() {
+			return
+		}
+	}
+	return
+}
+
+// throughHolder: does the pointer of tp pass through (or end below) a `$ref` holder of its document?
+// Such a reference designates nothing in the document as written; the expander, which resolves against
+// the root it is rewriting in place, may or may not find the holder already replaced by its target (K6).
+func throughHolder(g *model.Graph, tp model.Pos) bool {
+	cur := model.Pos{Doc: tp.Doc}
+	for _, tok := range tp.Tokens() {
+		n, err := g.Get(cur)
+		if err != nil {
+			return false
+		}
+		if _, isRef := model.RefOf(n); isRef {
+			return true
+		}
+		cur = cur.Child(tok)
+	}
+	return false
+}
+
+// allDanglingAreK6: every unresolvable $ref reachable from the root's elements has the K6 shape.
+func allDanglingAreK6(g *model.Graph, root string) bool {
+	some, all := false, true
+	g.Walk(rootElems(g, root), func(p model.Pos, k model.Kind, n any, isRef bool, ref string) {
+		if !isRef {
+			return
+		}
+		if tp, healthy := g.Hop(p, ref); !healthy {
+			some = true
+			if tp.Doc != root || !throughHolder(g, tp) {
+				all = false
+			}
+		}
+	})
+	return some && all
+}
+
+func oracleC08once(c c08Case) (*vstat.Failure, c08Info) {
 	f := &vstat.Failure{}
 	gin := c.graph()
 	refused := map[string]bool{}
@@ -165,7 +215,11 @@ func oracleC08(c c08Case) (*vstat.Failure, c08Info) {
 	if !c.Continue {
 		switch {
 		case info.dangling && run.Err == nil:
-			f.Add("SILENT-FAILURE", firstDangling.P.String(), "expansion returned no error although it has to follow the unresolvable $ref %q at %s", firstDangling.Ref, firstDangling.P)
+			known := ""
+			if allDanglingAreK6(gin, c.Graph.Root) {
+				known = "K6"
+			}
+			f.AddKnown(known, "SILENT-FAILURE", firstDangling.P.String(), "expansion returned no error although it has to follow the unresolvable $ref %q at %s", firstDangling.Ref, firstDangling.P)
 		case !info.dangling && run.Err != nil:
 			f.Add("SPURIOUS-ERROR", "ExpandSpec", "every $ref that has to be followed resolves, yet expansion failed: %v", run.Err)
 		}
@@ -192,7 +246,7 @@ func oracleC08(c c08Case) (*vstat.Failure, c08Info) {
 		if dependsOnNonSchemaDangling(gin, el) {
 			continue
 		}
-		continueWalk(f, gin, gout, el)
+		continueWalk(f, gin, gout, c.Graph.Root, el)
 		if len(f.Atoms) > 0 {
 			return f, info
 		}
